@@ -162,6 +162,14 @@ impl NormalFormQuery {
                 partition_range.len(),
                 &mut planner,
             )?;
+            // A scalar would be collected as a column of length 1 and fail result validation/conversion
+            if plan.tag.is_scalar() {
+                bail!(
+                    QueryError::NotImplemented,
+                    "Constant expression `{}` in SELECT clause",
+                    col_info.name
+                )
+            }
             plan = plan_type.codec.decode(plan, &mut planner);
             // TODO(perf): use more efficient solution than fuse_nulls for nullable columns (mostly requires better support in batch_merging)
             if plan.is_nullable() {
